@@ -121,18 +121,22 @@ impl<I: ObjectWrite> Stream<I> {
         };
         let mut params = None;
         if self.info.filters.len() > 0 {
+            // one entry per filter: with several filters /DecodeParms is an array parallel to /Filter
+            let mut per_filter = Vec::with_capacity(self.info.filters.len());
             for f in self.info.filters.iter() {
-                if let Some(para) = match f {
+                per_filter.push(match f {
                     StreamFilter::LZWDecode(ref p) => Some(p.to_primitive(update)?),
                     StreamFilter::FlateDecode(ref p) => Some(p.to_primitive(update)?),
                     StreamFilter::DCTDecode(ref p) => Some(p.to_primitive(update)?),
                     StreamFilter::CCITTFaxDecode(ref p) => Some(p.to_primitive(update)?),
                     StreamFilter::JBIG2Decode(ref p) => Some(p.to_primitive(update)?),
                     _ => None
-                } {
-                    assert!(params.is_none());
-                    params = Some(para);
-                }
+                });
+            }
+            if per_filter.len() == 1 {
+                params = per_filter.pop().unwrap();
+            } else if per_filter.iter().any(|p| p.is_some()) {
+                params = Some(Primitive::Array(per_filter.into_iter().map(|p| p.unwrap_or(Primitive::Null)).collect()));
             }
             let mut filters = self.info.filters.iter().map(|filter| match filter {
                 StreamFilter::ASCIIHexDecode => "ASCIIHexDecode",
